@@ -141,6 +141,29 @@ class Repo:
         go(cname)
         return out
 
+    def family(self, cname):
+        """representative of the connected component of cname in the inheritance graph: objects of different
+        families never coincide (an object has one class)"""
+        fam = getattr(self, '_family', None)
+        if fam is None:
+            parent = {c: c for c in self.classes}
+
+            def find(x):
+                while parent[x] != x:
+                    parent[x] = parent[parent[x]]
+                    x = parent[x]
+                return x
+            for c in self.classes:
+                for b in self.classes[c]['bases']:
+                    bb = self.resolve_class(b)
+                    if bb and bb in parent:
+                        ra, rb = find(c), find(bb)
+                        if ra != rb:
+                            parent[max(ra, rb)] = min(ra, rb)
+            fam = {c: find(c) for c in self.classes}
+            self._family = fam
+        return fam.get(cname, cname)
+
     def subclasses(self, cname):
         return [c for c in self.classes if cname in self.mro(c)]
 
